@@ -113,7 +113,12 @@ def run_case(case):
             dk = rt.diff_keys(cs, e['canon'])
             if dk:
                 mech = 'snapshot:bytes-differ-from-live-state:' + ','.join(dk)[:60]
-                viol.append(dict(mech=mech, msg='snapshot %d (%s) on disk differs from the live state when taken in fields %r' % (k, e['kind'], dk)))
+                where = []
+                for q_ in dk[:3]:
+                    a_, b_ = cs.get(q_, b''), e['canon'].get(q_, b'')
+                    off_ = next((i_ for i_ in range(min(len(a_), len(b_))) if a_[i_] != b_[i_]), min(len(a_), len(b_)))
+                    where.append('%s: %d vs %d bytes, first difference at byte %d (disk %s live %s)' % (q_, len(a_), len(b_), off_, a_[off_ - off_ % 8:off_ - off_ % 8 + 8].hex(), b_[off_ - off_ % 8:off_ - off_ % 8 + 8].hex()))
+                viol.append(dict(mech=mech, msg='snapshot %d (%s) on disk differs from the live state when taken in fields %r [%s]' % (k, e['kind'], dk, '; '.join(where))))
                 return False
         # (b) the real reader
         try:
@@ -193,6 +198,8 @@ def run_case(case):
         if x < 0.22:
             T = abs(sim.dt) * r.choice([1.5, 3.2, 7.9, 20.3]) if sim.integrator not in ('ias15', 'bs', 'trace', 'mercurius') else min(abs(dt0), abs(sim.dt)) * r.choice([2.0, 5.5, 11.0])
             op = dict(op='integrate', T=abs(T), exact=r.choice([0, 1]))
+            if os.path.exists(fn) and os.path.getsize(fn) > (256 << 20):
+                raise RuntimeError('archive budget exhausted')      # ends the history; the archive written so far is still read back
             import threading, signal
             tm = threading.Timer(6.0, lambda: os.kill(os.getpid(), signal.SIGINT))   # REBOUND's own SIGINT handler ends integrate() cleanly
             tm.start()
@@ -273,7 +280,7 @@ def run_case(case):
                 counters['snapshots_right_after_member_edit'] = counters.get('snapshots_right_after_member_edit', 0) + 1
         elif x < 0.78:
             which = r.choice(['dt', 'softening', 'G', 'N_active', 'testparticle_type', 'exit_max_distance'])
-            val = {'dt': dt0 * r.choice([0.5, 1.0, 1.3]), 'softening': r.choice([0.0, 1e-4]), 'G': sim.G, 'N_active': r.choice([-1, max(1, N - 1)]) if N > 1 else -1,
+            val = {'dt': dt0 * r.choice([0.5, 1.0, 1.3]), 'softening': r.choice([0.0, 1e-4]), 'G': sim.G, 'N_active': r.choice([-1, max(1, N - sim.N_var - 1)]) if N - sim.N_var > 1 else -1,
                    'testparticle_type': 0, 'exit_max_distance': r.choice([0.0, 1e6])}[which]
             op = dict(op='set', which=which, val=val)
             setattr(sim, which, val)
@@ -299,8 +306,16 @@ def run_case(case):
             # the schedule must continue as if nothing had happened - no snapshot twice, none missing
             op = dict(op='restart_from_last_auto_snapshot')
             got_ = 0
+            import threading, signal
             for _ in range(60 if auto['mode'] == 'interval' else auto['value'] + 2):
-                sim.integrate(sim.t + sim.dt, exact_finish_time=0)      # (only integrate() looks at the schedule)
+                if not (abs(sim.dt) < 1e3 * abs(dt0)) or os.path.getsize(fn) > (64 << 20):
+                    break             # the history has left the regime of ordinary steps (or the archive is already large): no restart here
+                tm = threading.Timer(2.0, lambda: os.kill(os.getpid(), signal.SIGINT))   # REBOUND's own SIGINT handler ends integrate() cleanly
+                tm.start()
+                try:
+                    sim.integrate(sim.t + sim.dt, exact_finish_time=0)      # (only integrate() looks at the schedule)
+                finally:
+                    tm.cancel()
                 got_ = harvest('auto')
                 if got_:
                     break
@@ -415,6 +430,9 @@ def run_case(case):
         v['spec'] = {q: spec[q] for q in spec if q != 'system'}
     for p in (fn, log):
         if os.path.exists(p):
+            if os.environ.get('C06_KEEP') and viol:
+                os.replace(p, os.path.join(os.environ['C06_KEEP'], os.path.basename(p)))       # debugging aid: keep the witness archive
+                continue
             os.unlink(p)
     cell = None
     if len(expected) >= 3:
